@@ -17,64 +17,9 @@ func FuzzReassembly(f *testing.F) {
 	f.Add([]byte{2, 3, 2, 0, 0, 2, 1, 0, 2, 1, 1, 1, 0, 2, 1, 1})
 	f.Add([]byte{1, 6, 0, 3, 3, 2, 0, 0, 3, 1, 0, 1, 4, 1})
 	f.Fuzz(func(t *testing.T, data []byte) {
-		if len(data) < 3 || len(data) > 400 {
+		c, ok := caseFromBytes(data)
+		if !ok {
 			return
-		}
-		k := int(data[0])%4 + 1
-		if len(data) < 1+k {
-			return
-		}
-		c := ReasmCase{}
-		for i := 0; i < k; i++ {
-			c.Lens = append(c.Lens, int(data[1+i])%24)
-			c.Types = append(c.Types, []int{1, 2, 11, 16}[i%4])
-		}
-		rest := data[1+k:]
-		var rec []Frag
-		for len(rest) >= 4 {
-			m := int(rest[0]) % k
-			n := c.Lens[m]
-			off, l := 0, 0
-			if n > 0 {
-				off = int(rest[1]) % (n + 1)
-				l = int(rest[2]) % (n - off + 1)
-			}
-			rec = append(rec, Frag{m, off, l})
-			if rest[3]%3 != 0 || len(rec) == 3 {
-				c.Records = append(c.Records, rec)
-				rec = nil
-			}
-			rest = rest[4:]
-		}
-		if len(rec) > 0 {
-			c.Records = append(c.Records, rec)
-		}
-		if len(c.Records) == 0 {
-			return
-		}
-		// liveness is only owed when the distinct fragments of every message tile it exactly
-		for m, n := range c.Lens {
-			seen := map[Frag]bool{}
-			var frs []Frag
-			for _, rc := range c.Records {
-				for _, fr := range rc {
-					if fr.Msg == m && !seen[fr] && (fr.Len > 0 || n == 0) {
-						seen[fr] = true
-						frs = append(frs, fr)
-					}
-				}
-			}
-			sort.Slice(frs, func(i, j int) bool { return frs[i].Off < frs[j].Off })
-			end := 0
-			for _, fr := range frs {
-				if fr.Off != end {
-					c.SafetyOnly = true
-				}
-				end = fr.Off + fr.Len
-			}
-			if end != n || len(frs) == 0 {
-				c.SafetyOnly = true
-			}
 		}
 		r := &pbt.R{}
 		runReasm(c, r)
@@ -82,4 +27,70 @@ func FuzzReassembly(f *testing.F) {
 			t.Fatalf("VERIF-SIG %s\n%s\ncase %+v", r.Sig, r.Msg, c)
 		}
 	})
+}
+
+// caseFromBytes decodes arbitrary bytes into a reassembly scenario whose fragments need not
+// partition their messages (overlaps, gaps, repetitions); SafetyOnly is set unless the distinct
+// fragments of every message happen to tile it exactly.
+func caseFromBytes(data []byte) (ReasmCase, bool) {
+	c := ReasmCase{}
+	if len(data) < 3 || len(data) > 400 {
+		return c, false
+	}
+	k := int(data[0])%4 + 1
+	if len(data) < 1+k {
+		return c, false
+	}
+	for i := 0; i < k; i++ {
+		c.Lens = append(c.Lens, int(data[1+i])%24)
+		c.Types = append(c.Types, []int{1, 2, 11, 16}[i%4])
+	}
+	rest := data[1+k:]
+	var rec []Frag
+	for len(rest) >= 4 {
+		m := int(rest[0]) % k
+		n := c.Lens[m]
+		off, l := 0, 0
+		if n > 0 {
+			off = int(rest[1]) % (n + 1)
+			l = int(rest[2]) % (n - off + 1)
+		}
+		rec = append(rec, Frag{m, off, l})
+		if rest[3]%3 != 0 || len(rec) == 3 {
+			c.Records = append(c.Records, rec)
+			rec = nil
+		}
+		rest = rest[4:]
+	}
+	if len(rec) > 0 {
+		c.Records = append(c.Records, rec)
+	}
+	if len(c.Records) == 0 {
+		return c, false
+	}
+	for m, n := range c.Lens {
+		seen := map[Frag]bool{}
+		var frs []Frag
+		for _, rc := range c.Records {
+			for _, fr := range rc {
+				if fr.Msg == m && !seen[fr] && (fr.Len > 0 || n == 0) {
+					seen[fr] = true
+					frs = append(frs, fr)
+				}
+			}
+		}
+		sort.Slice(frs, func(i, j int) bool { return frs[i].Off < frs[j].Off })
+		end := 0
+		for _, fr := range frs {
+			if fr.Off != end {
+				c.SafetyOnly = true
+			}
+			end = fr.Off + fr.Len
+		}
+		if end != n || len(frs) == 0 {
+			c.SafetyOnly = true
+		}
+	}
+
+	return c, true
 }
